@@ -66,6 +66,28 @@ theorem sortedBy_cmpDesc {l : List Int} (h : l.Pairwise (· > ·)) : SortedBy cm
   have h1 : ¬ a < b := by omega
   simp [cmpDesc, h1, hab]
 
+/-! ### the driver's mirror of `math/rand`'s Shuffle is a lawful shuffle (it only swaps) -/
+
+theorem swapIfInBounds_perm (a : Array Nat) (i j : Nat) : (a.swapIfInBounds i j).Perm a := by
+  unfold Array.swapIfInBounds
+  split
+  · split
+    · exact Array.swap_perm _ _
+    · exact Array.Perm.refl _
+  · exact Array.Perm.refl _
+
+theorem shuffleLoop_perm : ∀ (i : Nat) (a : Array Nat) (g : UInt32), (shuffleLoop i a g).1.Perm a
+  | 0, a, _ => Array.Perm.refl a
+  | i + 1, a, g => by
+    unfold shuffleLoop
+    exact (shuffleLoop_perm i _ _).trans (swapIfInBounds_perm a _ _)
+
+theorem shuffle_law : ShLaw Driver.shuffle := by
+  intro n g
+  have := shuffleLoop_perm (n - 1) (Array.range n) g
+  rw [Array.perm_iff_toList_perm, Array.toList_range] at this
+  exact this
+
 /-! ### four non-trivial states used by the `example`s next to the property theorems -/
 
 def exUnordered : MSet Int := ⟨.unordered eqI, [4, 1, 3]⟩
